@@ -616,6 +616,78 @@ def r12(ctx, facts):
         r.note("%s configuration: %d optional date/time conversions compiled in" % (config, len(bodies)))
 
 
+NOT_EMPTYABLE = {"Native:Counter", "Native:Duration", "Collection", "UserDefinedType"}
+
+
+def r13(ctx, facts):
+    """the zero-length `empty` cell: every CQL type except counter, duration, collections and UDTs has it (ScyllaDB's set), and
+    the writer (`MaybeEmpty`, `CqlValue::Empty`) asks ColumnType::supports_special_empty_value before it writes one. The set of
+    column types for which that function answers false is compared with the protocol's (seed C01-k: inet was refused)."""
+    from ..util import dj_of
+    r = ctx.rule("R13", "supports_special_empty_value is false exactly for counter, duration, collections and UDTs", floor=20)
+    b = facts.one(r"^scylla_cql_core::frame::response::result::ColumnType::<'_>::supports_special_empty_value$")
+    dj = dj_of(b, facts)
+    CT = "scylla_cql_core::frame::response::result::ColumnType"
+    NT = "scylla_cql_core::frame::response::result::NativeType"
+    ct_names = {int(v["discr"]): v["name"] for v in facts.adts[CT]["variants"]}
+    nt_names = {int(v["discr"]): v["name"] for v in facts.adts[NT]["variants"]}
+    universe = {n for n in ct_names.values() if n != "Native"} | {"Native:" + n for n in nt_names.values()}
+    got = {0: set(), 1: set()}
+    n_ret = 0
+    # the return place and the locals that are copied into it (a helper's result after inlining)
+    targets, grew = {0}, True
+    while grew:
+        grew = False
+        for bb in b.live_blocks:
+            for st in b.stmts(bb):
+                if st[0] == "A" and st[1][0] in targets and not st[1][1] and st[2][0] == "use" and st[2][1][0] in ("c", "m") and not st[2][1][1][1] \
+                        and st[2][1][1][0] not in targets:
+                    targets.add(st[2][1][1][0])
+                    grew = True
+    for bb, c in b.calls():
+        if bb in b.live_blocks and c.dest[0] in targets:
+            raise AnchorLost("supports_special_empty_value: the result comes from a call that was not inlined (%s)" % (c.name or c.decl))
+    for bb in sorted(b.live_blocks):
+        for j, st in enumerate(b.stmts(bb)):
+            if not (st[0] == "A" and st[1][0] in targets and not st[1][1]):
+                continue
+            if st[2][0] == "use" and st[2][1][0] in ("c", "m"):
+                continue
+            if not (st[2][0] == "use" and st[2][1][0] == "k" and st[2][1][1] == "int"):
+                raise AnchorLost("supports_special_empty_value: a result that is not a constant per column type (%s)" % (st[2][0],))
+            val = int(st[2][1][3])
+            n_ret += 1
+            for stt in dj.states_before_stmt(bb, j):
+                ct = None
+                nt = None
+                for k, v in stt.items():
+                    if k[0] != "disc" or v[0] != "in":
+                        continue
+                    ty = dj.disc_ty.get(k[1], "")
+                    if k[1] == (1, ()) or ty == CT:
+                        ct = set(v[1])
+                    elif ty == NT or (k[1][1] and k[1][1][0] == "@Native"):
+                        nt = set(v[1])
+                cts = ct if ct is not None else set(ct_names)
+                for c in cts:
+                    nm = ct_names.get(c)
+                    if nm == "Native":
+                        for x in (nt if nt is not None else set(nt_names)):
+                            got[val].add("Native:" + nt_names[x])
+                    elif nm:
+                        got[val].add(nm)
+    if not n_ret:
+        raise AnchorLost("supports_special_empty_value: no constant result found")
+    for shape in sorted(universe):
+        want_false = shape in NOT_EMPTYABLE
+        is_false, is_true = shape in got[0], shape in got[1]
+        ok = (is_false and not is_true) if want_false else (is_true and not is_false)
+        r.instance("emptyable:" + shape, ok,
+                   "supports_special_empty_value answers %s for %s; the protocol's set says %s (an empty value bound to that type is %s)"
+                   % ("false" if is_false and not is_true else "true" if is_true and not is_false else "both/neither", shape,
+                      "false" if want_false else "true", "written although the type has none" if want_false else "refused with NotEmptyable"), b.span)
+
+
 def check(ctx):
     facts = inline_view(ctx.facts("default"))
     A = Accept(facts)
@@ -624,7 +696,7 @@ def check(ctx):
         tabs = r1(ctx, facts, A)
     except AnchorLost as ex:
         ctx.rule("R1x", "anchors").fail("anchor-lost", str(ex))
-    for fn in ((lambda c, f: r2(c, f, tabs)) if tabs else None, r3, r4, r5, r6, r7, r8, r9, r10, r11, r12):
+    for fn in ((lambda c, f: r2(c, f, tabs)) if tabs else None, r3, r4, r5, r6, r7, r8, r9, r10, r11, r12, r13):
         if fn is None:
             continue
         try:
